@@ -945,8 +945,8 @@ func (self *PathNode) GetByStr(key string, opts *Options) *PathNode {
 	if opts.StoreChildrenByHash {
 		n, _ := self.Node.len()
 		N := n * 2
-		// TODO: cap may change after Set. Use better way to store hash size
-		if cap(self.Next) >= N {
+		// NOTICE: a hash table built by Load() always has len(self.Next) >= N
+		if N > 0 && len(self.Next) >= N {
 			if s := getStrHash(&self.Next, key, N); s != nil {
 				return s
 			}
@@ -978,8 +978,8 @@ func (self *PathNode) SetByStr(key string, val Node, opts *Options) (bool, error
 	if opts.StoreChildrenByHash {
 		n, _ := self.Node.len()
 		N := n * 2
-		// TODO: cap may change after Set. Use better way to store hash size
-		if cap(self.Next) >= N {
+		// NOTICE: a hash table built by Load() always has len(self.Next) >= N
+		if N > 0 && len(self.Next) >= N {
 			if s := getStrHash(&self.Next, key, N); s != nil {
 				s.Node = val
 				return true, nil
@@ -1017,7 +1017,7 @@ func (self *PathNode) GetByInt(key int, opts *Options) *PathNode {
 		// TODO: size may change after Set. Use better way to store hash size
 		n, _ := self.Node.len()
 		N := n * 2
-		if cap(self.Next) >= N {
+		if N > 0 && len(self.Next) >= N {
 			if s := getIntHash(&self.Next, uint64(key), N); s != nil {
 				return s
 			}
@@ -1049,7 +1049,7 @@ func (self *PathNode) SetByInt(key int, val Node, opts *Options) (bool, error) {
 	if opts.StoreChildrenByHash {
 		n, _ := self.Node.len()
 		N := n * 2
-		if cap(self.Next) >= N {
+		if N > 0 && len(self.Next) >= N {
 			if s := getIntHash(&self.Next, uint64(key), N); s != nil {
 				s.Node = val
 				return true, nil
